@@ -61,6 +61,8 @@ class Result:
     confirm_attempts: list = field(default_factory=list)
     risky_pattern: bool = False  # the file combines seq.extract with quantifiers (z3 has answered `unsat` wrongly on such files)
     second_opinion: bool = False  # some configuration other than the prover also answered unsat
+    vacuity_probe: str | None = None  # answer of the proving configuration on the HYPOTHESES ONLY (no negated goal): sat / unknown / timeout / unsat
+    vacuous: bool = False  # the hypotheses alone are `unsat` for the prover and cvc5 certified neither the proof nor the infeasibility => status unknown
     seq_string: bool = False  # the file has sequences of strings `(Seq String)` under quantifiers: z3 has answered `unsat` wrongly on such files with NO configuration contradicting it (selftest/solver_regress/uncaught_*); for the evidence: proofs on such files that only z3 found
 
     @property
@@ -368,6 +370,56 @@ def risky_file(path: str) -> bool:
     return "seq.extract" in txt and "(forall " in txt
 
 
+_probe_cache: dict = {}
+_probe_lock = None
+
+
+def hyps_only_text(txt: str):
+    """the SMT-LIB text without its LAST assertion (the negated goal; write order of to_smt2), or None"""
+    end = txt.rfind("(check-sat)")
+    i = txt.rfind("\n(assert", 0, end if end >= 0 else len(txt))
+    if i < 0 or end < 0:
+        return None
+    return txt[:i] + "\n" + txt[end:]
+
+
+def vacuity_probe(path: str, prover: str, timeout: float):
+    """Run `prover` (and cvc5 when it says unsat) on the hypotheses of the file alone.
+    -> (answer of the prover, answer of cvc5 or None).  Results are cached per hypotheses text (all the postconditions of one
+    path share their hypotheses)."""
+    import hashlib
+    import threading
+
+    global _probe_lock
+    if _probe_lock is None:
+        _probe_lock = threading.Lock()
+    try:
+        with open(path) as f:
+            txt = f.read()
+    except OSError:
+        return None, None
+    body = "\n".join(l for l in txt.split("\n") if not l.startswith(";"))
+    hy = hyps_only_text(body)
+    if hy is None:
+        return None, None
+    key = (hashlib.md5(hy.encode()).hexdigest(), prover)
+    with _probe_lock:
+        if key in _probe_cache:
+            return _probe_cache[key]
+    hp = path[:-5] + ".hyps.smt2"
+    with open(hp, "w") as f:
+        f.write(hy)
+    if path in _no_cvc5:
+        _no_cvc5.add(hp)
+    a1 = run_solver(prover, hp, timeout)[0]
+    a2 = None
+    if a1 == "unsat" and hp not in _no_cvc5:
+        a2 = run_solver("cvc5", hp, max(timeout, 5.0))[0]
+    with _probe_lock:
+        _probe_cache[key] = (a1, a2)
+    return a1, a2
+
+
 def strict_seq(path: str) -> bool:
     """files on which z3's `unsat` has been seen to be wrong WITHOUT any configuration contradicting it (sequences of strings
     `(Seq String)` under quantifiers, selftest/solver_regress/uncaught_*.smt2).  With PYVC_STRICT_SEQ=1 an
@@ -493,11 +545,21 @@ def solve_file(res: Result, timeout=10.0, portfolio=PORTFOLIO, confirm_unsat=Tru
     except OSError:
         pass
     if res.status == "proved" and not res.expect_fail and confirm_unsat and (needs_confirmation(path) or res.risky_pattern or str(res.solver).startswith("z3-4.8")):
-        dis, agree, att = confirm(path, res.solver, 3.0 if timeout <= 10 else 10.0)
+        dis, agree, att = confirm(path, res.solver, 3.0 if timeout <= 10 else 60.0)  # thorough tier: a long budget, so that fewer proofs rest on z3 alone
         res.confirm_attempts = att
         res.confirmed_by += agree
         res.time_s += max([a["time_s"] for a in att], default=0.0)
         res.second_opinion = len(res.confirmed_by) > 1
+        if dis is None and res.seq_string and str(res.solver).startswith("z3") and os.environ.get("PYVC_VACUITY_PROBE", "1") != "0":
+            # VACUITY PROBE: does the prover call the hypotheses ALONE unsatisfiable?  Then the "proof" says nothing about the
+            # goal: either the path is genuinely infeasible or it is z3's wrong `unsat` on (Seq String) quantifiers.  It only
+            # stands when cvc5 certifies the proof itself or the infeasibility of the hypotheses.
+            a1, a2 = vacuity_probe(path, res.solver, 2.0 if timeout <= 10 else 5.0)
+            res.vacuity_probe = a1
+            if a1 == "unsat" and a2 != "unsat" and not any(str(c_).startswith("cvc5") for c_ in res.confirmed_by):
+                res.vacuous = True
+                res.status = "unknown"
+                res.info = dict(res.info, vacuous=f"{res.solver} finds the hypotheses alone unsat and cvc5 certifies neither the proof nor the infeasibility")
         if (dis is None and res.risky_pattern and str(res.solver).startswith("z3") and not res.second_opinion
                 and os.environ.get("PYVC_STRICT_RISKY", "1") != "0"):
             # strict rule (on by default): on a risky file a z3 `unsat` needs a second opinion (cvc5 or a noematch configuration)
